@@ -51,7 +51,7 @@ type M = map[string]any
 
 type keyT struct{ P, N, Name string }
 
-var stallAfter = 20 * time.Second
+var stallAfter = 30 * time.Second
 
 var (
 	tenancies = [][2]string{{"default", "default"}, {"default", "n2"}, {"p2", "default"}}
@@ -871,7 +871,7 @@ func main() {
 	w := flag.Int("watchers", 0, "watcher goroutines (0 = 1..2 at random)")
 	first := flag.Int("first", 0, "number of the first history")
 	outp := flag.String("out", "", "output ndjson")
-	stall := flag.Int("stall", 20, "seconds without any progress after which a history is recorded as stalled")
+	stall := flag.Int("stall", 30, "seconds without any progress after which a history is recorded as stalled")
 	scen := flag.String("scenario", "", "run a fixed sequential script instead of random histories (restore-stale)")
 	flag.Parse()
 	if *outp == "" {
